@@ -32,7 +32,7 @@ ASSUMPTIONS = [
 
 def BOUNDS(tier):
     return {"dictionary_size": 3 if tier == "thorough" else 2, "alphabet": 12, "containers": "u(1..3), (u,p), (u,p,J) on line/quad/hex/quad9/triangle6",
-            "single_boundary_alphabet": "3^dim predicates x 2 modes x 2^dim skips + masks"}
+            "single_boundary_alphabet": "3^dim predicates x 2 modes x 2^dim skips + masks", "value_array_layouts": ["C", "Fortran", "strided view"]}
 
 
 def meshes(seed):
